@@ -5,6 +5,7 @@ import (
 	"fmt"
 	"io/ioutil"
 	"os"
+	"path/filepath"
 	"strings"
 	"time"
 
@@ -14,29 +15,31 @@ import (
 // Dims are the harness dimensions: configuration that is not part of the
 // specification state and over which every behaviour can be replayed.
 type Dims struct {
-	Mode           string  `json:"mode"` // "mem" | "app" | "store"
-	CachePersisted bool    `json:"cachePersisted"`
-	DeferredSort   bool    `json:"deferredSort"`
-	MinMergePct    float64 `json:"minMergePct"`
-	MaxPre         int     `json:"maxPre"`
-	Compaction     string  `json:"compaction"` // "disable" | "allow" | "force"
-	LevelMaxSegs   int     `json:"levelMaxSegs"`
-	LevelMult      int     `json:"levelMult"`
-	NoSync         bool    `json:"noSync"`
-	Sparse         bool    `json:"sparse"` // observe only where the behaviour says so
-	AllocBatches   bool    `json:"allocBatches"`
-	AllocMix       bool    `json:"allocMix"` // with allocBatches: every other operation through the plain Set/Del/Merge
-	NKeys          int     `json:"nkeys"`
+	Mode           string   `json:"mode"` // "mem" | "app" | "store"
+	CachePersisted bool     `json:"cachePersisted"`
+	DeferredSort   bool     `json:"deferredSort"`
+	MinMergePct    float64  `json:"minMergePct"`
+	MaxPre         int      `json:"maxPre"`
+	Compaction     string   `json:"compaction"` // "disable" | "allow" | "force"
+	LevelMaxSegs   int      `json:"levelMaxSegs"`
+	LevelMult      int      `json:"levelMult"`
+	NoSync         bool     `json:"noSync"`
+	Sparse         bool     `json:"sparse"` // observe only where the behaviour says so
+	AllocBatches   bool     `json:"allocBatches"`
+	AllocMix       bool     `json:"allocMix"` // with allocBatches: every other operation through the plain Set/Del/Merge
+	NKeys          int      `json:"nkeys"`
 	Paths          []string `json:"paths"`
-	LeakCheck      bool    `json:"leakCheck"` // C15: after everything is closed nothing of the directory may stay open or mapped
-	KeepFiles      bool    `json:"keepFiles"`
-	CloseOrder     string  `json:"closeOrder"` // "snapsFirst" (default) | "storeFirst": order in which the driver closes what the behaviour left open
-	Preload        []int   `json:"preload"` // keys the lower level holds (token 9) before the behaviour starts
-	ConcrProfile   string  `json:"concr"`
-	OpOrder        string  `json:"opOrder"`       // "" (ascending keys) | "desc": order in which the operations are put into a batch
-	CompactionPct  float64 `json:"compactionPct"` // StoreOptions.CompactionPercentage (1.0: never "too fragmented" for a partial compaction)
-	Rolling        bool    `json:"rolling"`       // hold a store snapshot and a clean collection snapshot across every persistence round
-	Seed           int64   `json:"seed"`
+	LeakCheck      bool     `json:"leakCheck"` // C15: after everything is closed nothing of the directory may stay open or mapped
+	KeepFiles      bool     `json:"keepFiles"`
+	CloseOrder     string   `json:"closeOrder"`  // "snapsFirst" (default) | "storeFirst": order in which the driver closes what the behaviour left open
+	Preload        []int    `json:"preload"`     // keys the lower level holds (token 9) before the behaviour starts
+	PreloadKids    []string `json:"preloadKids"` // child collection paths (parents first) the lower level holds, each with key 1 = token 9
+	ConcrProfile   string   `json:"concr"`
+	OpOrder        string   `json:"opOrder"`       // "" (ascending keys) | "desc": order in which the operations are put into a batch
+	CompactionPct  float64  `json:"compactionPct"` // StoreOptions.CompactionPercentage (1.0: never "too fragmented" for a partial compaction)
+	Rolling        bool     `json:"rolling"`       // hold a store snapshot and a clean collection snapshot across every persistence round
+	DiskCheck      bool     `json:"diskCheck"`     // after every persistence round: copy the directory, open the copy, compare with the model's store
+	Seed           int64    `json:"seed"`
 }
 
 // BNode / Step / Expect mirror the records TLC prints (MossColl!Log).
@@ -83,16 +86,16 @@ type StepResult struct {
 
 // Result of one behaviour.
 type Result struct {
-	ID     int          `json:"id"`
-	Variant int         `json:"variant"`
-	Status string       `json:"status"` // "ok" | "mismatch" | "infra"
-	Infra  string       `json:"infra,omitempty"`
-	Steps  []StepResult `json:"steps,omitempty"`
-	Shapes []string     `json:"shapes,omitempty"` // section-height shapes seen
-	Cross  bool         `json:"cross"`            // some read crossed a section boundary
-	Gz0    bool         `json:"gz0"`              // all dirty gauges were zero at some observation after the first batch
-	Partial int         `json:"partial"`          // partial compactions (splice point > 0) the implementation took
-	Full    int         `json:"full"`             // full compactions
+	ID      int          `json:"id"`
+	Variant int          `json:"variant"`
+	Status  string       `json:"status"` // "ok" | "mismatch" | "infra"
+	Infra   string       `json:"infra,omitempty"`
+	Steps   []StepResult `json:"steps,omitempty"`
+	Shapes  []string     `json:"shapes,omitempty"` // section-height shapes seen
+	Cross   bool         `json:"cross"`            // some read crossed a section boundary
+	Gz0     bool         `json:"gz0"`              // all dirty gauges were zero at some observation after the first batch
+	Partial int          `json:"partial"`          // partial compactions (splice point > 0) the implementation took
+	Full    int          `json:"full"`             // full compactions
 }
 
 // Notifier is the (exported-method) merger notification API of a collection.
@@ -104,34 +107,34 @@ const stepTimeout = 20 * time.Second
 
 // Session replays one behaviour.
 type Session struct {
-	D     Dims
-	C     *Concr
-	sched *Sched
-	coll  moss.Collection
-	store *moss.Store
-	app   *AppStore
-	dir   string
-	merge *moss.MergeOperatorStringAppend
-	snaps map[int]moss.Snapshot
-	onErr int
-	policyDiverged bool // the implementation chose another merge level than the behaviour
-	lastErr string
-	closeDone chan error
-	refs  []Content // expectations after each executed batch (TLC's, for prefix checks)
-	refsBeforeReopen []Content
-	heldStore     moss.Snapshot
-	heldStoreExp  Content
-	heldStoreOpen bool
+	D                         Dims
+	C                         *Concr
+	sched                     *Sched
+	coll                      moss.Collection
+	store                     *moss.Store
+	app                       *AppStore
+	dir                       string
+	merge                     *moss.MergeOperatorStringAppend
+	snaps                     map[int]moss.Snapshot
+	onErr                     int
+	policyDiverged            bool // the implementation chose another merge level than the behaviour
+	lastErr                   string
+	closeDone                 chan error
+	refs                      []Content // expectations after each executed batch (TLC's, for prefix checks)
+	refsBeforeReopen          []Content
+	heldStore                 moss.Snapshot
+	heldStoreExp              Content
+	heldStoreOpen             bool
 	prevH                     []int         // section heights TLC expects after the previous step (-1: nil)
 	rollStore, rollColl       moss.Snapshot // rolling snapshots (Dims.Rolling)
 	rollStoreExp, rollCollExp Content
-	openErr       string
-	leaks         []Mismatch
-	conformance   []Mismatch
-	partial, full int // compactions seen by earlier incarnations (before a reopen)
-	life  string
-	failWrites int32
-	flog  *FileLog
+	openErr                   string
+	leaks                     []Mismatch
+	conformance               []Mismatch
+	partial, full             int // compactions seen by earlier incarnations (before a reopen)
+	life                      string
+	failWrites                int32
+	flog                      *FileLog
 }
 
 func NewSession(d Dims) *Session {
@@ -297,7 +300,7 @@ func procRefs(dir string) (fds, maps, files []string) {
 // preload persists the initial content of the lower level (InitKeys of the
 // specification) with a plain, ungated store session.
 func (s *Session) preload() error {
-	if len(s.D.Preload) == 0 {
+	if len(s.D.Preload) == 0 && len(s.D.PreloadKids) == 0 {
 		return nil
 	}
 	st, c, err := moss.OpenStoreCollection(s.dir, moss.StoreOptions{}, moss.StorePersistOptions{})
@@ -310,6 +313,19 @@ func (s *Session) preload() error {
 	}
 	for _, k := range s.D.Preload {
 		b.Set(s.C.Keys[k-1], s.C.Bytes(Val{P: true, V: []int{9}}))
+	}
+	kidBatch := map[string]moss.Batch{"": b}
+	for _, q := range s.D.PreloadKids { // parents first
+		par, name := "", q
+		if i := strings.LastIndex(q, "/"); i >= 0 {
+			par, name = q[:i], q[i+1:]
+		}
+		cb, err := kidBatch[par].NewChildCollectionBatch(s.C.Names[name], moss.BatchOptions{})
+		if err != nil {
+			return err
+		}
+		cb.Set(s.C.Keys[0], s.C.Bytes(Val{P: true, V: []int{9}}))
+		kidBatch[q] = cb
 	}
 	if err := c.ExecuteBatch(b, moss.WriteOptions{}); err != nil {
 		return err
@@ -324,6 +340,7 @@ func (s *Session) preload() error {
 		if time.Now().After(deadline) {
 			return fmt.Errorf("timeout waiting for the preload to persist")
 		}
+		c.(Notifier).NotifyMerger("preload", false) // a batch without top-level operations does not wake the merger by itself
 		time.Sleep(time.Millisecond)
 	}
 	if err := c.Close(); err != nil {
@@ -338,6 +355,12 @@ func (s *Session) preload() error {
 		root.M[k-1] = Val{P: true, V: []int{9}}
 	}
 	s.heldStoreExp[""] = root
+	for _, q := range s.D.PreloadKids {
+		n := s.heldStoreExp[q]
+		n.Ex = true
+		n.M[0] = Val{P: true, V: []int{9}}
+		s.heldStoreExp[q] = n
+	}
 	return nil
 }
 
@@ -896,6 +919,29 @@ func (s *Session) Observe(idx int, st Step, full bool) StepResult {
 			r.Drift = append(r.Drift, fmt.Sprintf("gauges zero: model %v impl ops=%d segs=%d", exp.Gz, cs.CurDirtyOps, cs.CurDirtySegments))
 		}
 	}
+	// what is on disk after a completed round is what a clean shutdown now would leave behind (Close
+	// writes nothing): a copy of the directory must open and hold exactly the model's store content
+	if s.D.DiskCheck && s.D.Mode == "store" && s.life == "open" && st.Act == "PersisterSwap" {
+		// the content the live store holds: the model's, or (merge and compaction policy are not
+		// modelled, see the `lower` check below) the reference after another prefix of the batches
+		var live Content
+		if len(s.checkLower(exp.St, "lower")) == 0 {
+			live = exp.St
+		} else {
+			for j := len(s.refs); j >= 0 && live == nil; j-- {
+				c := emptyContent(s.D)
+				if j > 0 {
+					c = s.refs[j-1]
+				}
+				if len(s.checkLower(c, "lower")) == 0 {
+					live = c
+				}
+			}
+		}
+		if live != nil { // otherwise the `lower` check reports the live store itself
+			r.Mismatches = append(r.Mismatches, s.diskCopyCheck(live)...)
+		}
+	}
 	// lower level content must be the reference after a prefix of the batches
 	if s.D.Mode != "mem" && s.life != "closed" {
 		mm := s.checkLower(exp.St, "lower")
@@ -922,6 +968,46 @@ func (s *Session) Observe(idx int, st Step, full bool) StepResult {
 		}
 	}
 	return r
+}
+
+// diskCopyCheck opens a copy of the store directory (read-only, so that no background goroutine
+// and no cleanup runs) and compares its content with want.
+func (s *Session) diskCopyCheck(want Content) (out []Mismatch) {
+	dir, err := ioutil.TempDir(scratchBase(), "diskcopy")
+	if err != nil {
+		return nil
+	}
+	defer os.RemoveAll(dir)
+	fis, _ := ioutil.ReadDir(s.dir)
+	for _, fi := range fis {
+		if b, err := ioutil.ReadFile(filepath.Join(s.dir, fi.Name())); err == nil {
+			ioutil.WriteFile(filepath.Join(dir, fi.Name()), b, 0600)
+		}
+	}
+	so, po := s.storeOptions()
+	so.OpenFile = nil
+	so.CollectionOptions.ReadOnly = true
+	so.CollectionOptions.OnError = nil
+	e := safely(func() error {
+		st, c, err := moss.OpenStoreCollection(dir, so, po)
+		if err != nil {
+			out = append(out, Mismatch{What: "reopencopy.open", Got: err.Error(), Want: "the directory as it is after a completed persistence round opens"})
+			return nil
+		}
+		defer st.Close()
+		defer c.Close()
+		ss, err := c.Snapshot()
+		if err != nil {
+			return err
+		}
+		defer ss.Close()
+		out = append(out, CheckSnapshot(ss, s.C, want, s.D.Paths, "reopencopy")...)
+		return nil
+	})
+	if e != nil {
+		out = append(out, Mismatch{What: "reopencopy.fault", Got: e.Error()})
+	}
+	return
 }
 
 func (s *Session) closeRolling() {
